@@ -114,12 +114,13 @@ class SimHandle:
             return 0
         data = s if self.binary else s.encode("utf-8")
         self.fs._event(self, "write", len(data))
+        prior = len(self._buf)
         self._buf += data
         if len(self._buf) >= self.fs.buffer_size:
-            self._flush("flush")
+            self._flush("flush", cur=(prior, s))
         return len(s)
 
-    def _flush(self, evname):
+    def _flush(self, evname, cur=None):
         if self._dead or not self._buf:
             return
         data, self._buf = self._buf, b""
@@ -128,6 +129,23 @@ class SimHandle:
             kind, frac = fault
             if kind == "eio_close":
                 raise OSError(errno.EIO, "simulated deferred write error")
+            if kind == "eintr":
+                # a write interrupted before anything was transferred (what EINTR means; Python itself retries it, user code
+                # only ever sees it when a signal handler raises): nothing of this flush reaches the file
+                # (what earlier write calls had buffered stays buffered; the text of the failing call is not taken)
+                self._buf = data if cur is None else data[:cur[0]]
+                raise InterruptedError(errno.EINTR, f"simulated eintr: none of {len(data)} bytes written")
+            if kind == "eagain":
+                # non-blocking descriptor: everything buffered by EARLIER write calls goes through, of the current call's text
+                # only the first `cw` characters; the exception says how many (BlockingIOError.characters_written)
+                if cur is None:
+                    self._commit(data)
+                    return
+                prior, text = cur
+                cw = min(int(len(text) * frac), max(len(text) - 1, 0))
+                head = text[:cw] if self.binary else text[:cw].encode("utf-8")
+                self._commit(data[:prior] + head)
+                raise BlockingIOError(errno.EAGAIN, f"simulated eagain after {cw} of {len(text)} characters", cw)
             j = int(len(data) * frac)
             j = min(max(j, 0), max(len(data) - 1, 0))
             self._commit(data[:j])
